@@ -179,6 +179,39 @@ pub fn c11(run: &mut Run) -> Stats {
             st
         })
         .reduce(Stats::default, Stats::merge);
+    // ---- 2b. a set and its complement in one pattern (each escape keeps its own polarity)
+    let st2b = exprs
+        .par_iter()
+        .fold(Stats::default, |mut st, e| {
+            let oracle = &t.sets[t.names[*e]];
+            let is_member = |c: u32| oracle.iter().any(|&(a, b)| a <= c && c <= b);
+            let scalar = |c: &u32| !(0xD800..=0xDFFF).contains(c);
+            let member = oracle.iter().flat_map(|&(a, b)| [a, b]).find(|c| scalar(c));
+            let non_member = [0x61u32, 0x41, 0x30, 0x20, 0x3B1, 0x4E00, 0x10FFFF, 0xE000, 0x0].into_iter().find(|&c| !is_member(c)).or_else(|| (0..0x110000u32).filter(scalar).find(|&c| !is_member(c)));
+            let (Some(m), Some(n)) = (member, non_member) else { return st };
+            let (mc, nc) = (char::from_u32(m).unwrap(), char::from_u32(n).unwrap());
+            for fs in ["u", "v"] {
+                for (tpl, want) in [("^\\p{E}\\P{E}$", "mn"), ("^\\P{E}\\p{E}$", "nm"), ("^[^\\p{E}]\\p{E}$", "nm"), ("^\\p{E}[^\\p{E}]\\p{E}$", "mnm"), ("(?<=\\P{E})\\p{E}", "nm")] {
+                    let pat_s = tpl.replace("E", e);
+                    let CompileOutcome::Ok(re) = subject::compile(&cps(&pat_s), Flags::parse(fs), false) else { continue };
+                    for hay_shape in ["mn", "nm", "mm", "nn", "mnm", "nmn"] {
+                        let text: String = hay_shape.chars().map(|c| if c == 'm' { mc } else { nc }).collect();
+                        let exp = if tpl.starts_with('^') { hay_shape == want } else { hay_shape.contains(want) };
+                        st.add("evaluations", 1);
+                        st.add("validated", 1);
+                        if exp {
+                            st.add("nontrivial", 1);
+                        }
+                        let got = subject::guarded(10_000_000, || re.find(&text).is_some());
+                        if got != Outcome::Ok(exp) {
+                            st.violation(&known, "C11", &format!("\\p and \\P of one set in one pattern: {}", tpl), e.len(), case(e, fs, false, &format!("/{}/{} on {:?} (m = U+{:04X} member, n = U+{:04X} non-member, shape {})", pat_s, fs, text, m, n, hay_shape), J::Bool(exp), J::s(&format!("{:?}", got))));
+                        }
+                    }
+                }
+            }
+            st
+        })
+        .reduce(Stats::default, Stats::merge);
     // ---- 3. properties of strings over the judged universe
     let mut st3 = Stats::default();
     let mut names: Vec<&String> = t.strings.keys().collect();
@@ -245,7 +278,7 @@ pub fn c11(run: &mut Run) -> Stats {
         st3 = st3.merge(s);
     }
     run.rule = format!(
-        "acceptance: {} candidate expressions (every expression the oracle lists as accepted or rejected: names, values and aliases of all Unicode properties known to Perl UCD 14 and ES, scripts of Unicode 15-17, case/underscore/space variants, wrong property prefixes, plus {} built from string literals found in the subject's own name tables) x {{u,v}} x {{\\p,\\P}}; membership: every accepted expression x {{u,v}} x {{\\p,\\P}} over all 1,112,064 scalar values (one scan of the all-scalars haystack each); strings: {} judged strings x 7 properties of strings under v as /^\\p{{..}}$/, and every member string against the unanchored forms /\\p{{..}}/, /[\\p{{..}}]/ and /(?<=^\\p{{..}})$/ (whole-string first match, forwards and backwards); non-trivial = expression admitted by ES / string is a member",
+        "acceptance: {} candidate expressions (every expression the oracle lists as accepted or rejected: names, values and aliases of all Unicode properties known to Perl UCD 14 and ES, scripts of Unicode 15-17, case/underscore/space variants, wrong property prefixes, plus {} built from string literals found in the subject's own name tables) x {{u,v}} x {{\\p,\\P}}; membership: every accepted expression x {{u,v}} x {{\\p,\\P}} over all 1,112,064 scalar values (one scan of the all-scalars haystack each); every accepted expression used with both polarities in one pattern (5 templates x 6 member / non-member haystack shapes); strings: {} judged strings x 7 properties of strings under v as /^\\p{{..}}$/, and every member string against the unanchored forms /\\p{{..}}/, /[\\p{{..}}]/ and /(?<=^\\p{{..}})$/ (whole-string first match, forwards and backwards); non-trivial = expression admitted by ES / string is a member",
         cands.len(),
         from_source,
         t.universe.len()
@@ -257,7 +290,7 @@ pub fn c11(run: &mut Run) -> Stats {
     ];
     run.extra.push(("accepted_expressions".into(), J::u(t.names.len() as u64)));
     run.extra.push(("distinct_sets".into(), J::u(t.sets.len() as u64)));
-    st1.merge(st2).merge(st3)
+    st1.merge(st2).merge(st2b).merge(st3)
 }
 
 fn seq_str(u: &[u32]) -> String {
